@@ -11,7 +11,7 @@ from pyoma2.functions import ssi
 from pyoma2.setup import SingleSetup
 
 from .. import modal
-from ..core import J, Sub, raised, rng_of, sut
+from ..core import relayout, J, Sub, raised, rng_of, sut
 
 PROPERTY = "C17"
 RULE = (
@@ -157,7 +157,8 @@ def factor_case(draw):
     Nb = draw(st.integers(5, 40))
     N = nb * Nb + 1 + draw(st.integers(0, Nb - 1))  # N-1 >= nb*Nb products; N//nb == Nb
     return {"l": l, "refs": sorted(draw(st.lists(st.integers(0, l - 1), min_size=r, max_size=r, unique=True))), "br": br, "nb": nb, "N": N,
-            "seed": draw(st.integers(0, 2**32 - 1))}
+            "seed": draw(st.integers(0, 2**32 - 1)), "dtype": draw(st.sampled_from(["float64", "float64", "float64", "int16", "int32", "int64"])),
+            "layout": draw(st.sampled_from(["C", "C", "F", "colslice", "neg"]))}
 
 
 def judge_factor(case):
@@ -168,10 +169,13 @@ def judge_factor(case):
     Ndat = N + p + q
     rng = rng_of(case["seed"])
     Y = np.cumsum(rng.normal(size=(l, Ndat)), axis=1) * 0.05 + rng.normal(size=(l, Ndat))
+    dt_ = case.get("dtype", "float64")
+    if dt_ != "float64":
+        Y = np.rint(Y * {"int16": 40.0, "int32": 3e3, "int64": 1e5}[dt_])  # whole-number records (modest raw counts) in an integer dtype
     R = Y[refs, :]
-    j.tag(f"l={l}", f"r={r}")
+    j.tag(f"l={l}", f"r={r}", dt_, "layout=" + case.get("layout", "C"))
     j.nontrivial(l > 1 or br > 1)
-    out = sut(ssi.build_hank, Y.copy(), R.copy(), br, "cov_mm", calc_unc=True, nb=nb)
+    out = sut(ssi.build_hank, relayout(Y.astype(dt_), case.get("layout", "C")), relayout(R.astype(dt_), case.get("layout", "C")), br, "cov_mm", calc_unc=True, nb=nb)
     if not j.check(not raised(out), "factor-raises", lambda: f"{out!r}"):
         return j
     H, T = np.asarray(out[0]), out[1]
